@@ -62,7 +62,7 @@ def rule_key(ctx):
     # the hash: from_byte_array(expect(try_into(a1)))
     r = prog.one('BlockIndexRecord::from')
     rv = canon(r.ret_expr())
-    ctx.check('key', 'block_hash-from-key-bytes', 'block_hash: expect(try_into(a1), "leveldb: malformed blockhash")' in rv, r, 'block_hash built from the key slice')
+    ctx.check('key', 'block_hash-from-key-bytes', 'block_hash: try_into(a1)?' in rv, r, 'block_hash built from the key slice')
 
 
 def rule_order(ctx):
@@ -100,7 +100,7 @@ def rule_varint(ctx):
     prog = ctx.prog
     v = prog.one('index::read_varint')
     ctx.touch(v)
-    rets = [(canon(v.rvalue_expr(d[3])), util.guards_at(v, d[1])) for d in v.defs().get(0, []) if d[0] == 'assign']
+    rets = [(canon(v.rvalue_expr(d[3])), util.guards_at(v, d[1])) for d in v.ret_defs() if d[0] == 'assign']
     ok = [x for x in rets if x[0].startswith('Result::Ok')]
     acc = 'phi(((loopvar << 7) | ((read_u8(a1)? & 127) as u64)) | (loopvar + 1) | 0)'
     alt = 'phi(((loopvar * 128) + ((read_u8(a1)? & 127) as u64)) | (loopvar + 1) | 0)'
@@ -143,7 +143,7 @@ def rule_flow(ctx):
               'blk_index/data_offset/height are u64')
     # Ok(None) only when the index has no record
     rets = {}
-    for d in g.defs().get(0, []):
+    for d in g.ret_defs():
         if d[0] == 'assign':
             rets[canon(g.rvalue_expr(d[3]))] = util.guards_at(g, d[1])
     ctx.check('flow', 'none-iff-not-indexed', rets.get('Result::Ok{0: Option::None{}}') == ['get(self.chain_index, a2) is None'], g, 'Ok(None) under %s' % rets.get('Result::Ok{0: Option::None{}}'))
@@ -202,14 +202,14 @@ def rule_files(ctx):
     ctx.check('files', 'only-when-name-parses', 'parse_blk_index(%s, "blk", ".dat") is Some' % name in g, cs, 'guard parse_blk_index(..) is Some')
     pb = prog.one('BlkFile::parse_blk_index')
     ctx.touch(pb)
-    rets = sorted((canon(pb.rvalue_expr(d[3])) if d[0] == 'assign' else canon(pb.call_expr(d[2])), tuple(util.guards_at(pb, d[1]))) for d in pb.defs().get(0, []))
+    rets = sorted((canon(pb.rvalue_expr(d[3])) if d[0] == 'assign' else canon(pb.call_expr(d[2])), tuple(util.guards_at(pb, d[1]))) for d in pb.ret_defs())
     exp = sorted([('ok(parse(a1[Range::Range{start: len(a2), end: (len(a1) - len(a3))}]))', ('ends_with(a1, a3)', 'starts_with(a1, a2)')),
                   ('Option::None{}', ())])
     ctx.check('files', 'prefix-suffix-middle', rets == exp, pb, 'parse_blk_index = %s' % rets)
     pr = [c for c in pb.calls if mir.method_name(c.name) == 'parse']
     ctx.check('files', 'middle-parses-as-u64', len(pr) == 1 and pr[0].gargs and pr[0].gargs[-1] == 'u64', pb, 'str::parse::<%s>' % (pr[0].gargs[-1] if pr else '?'))
     # None is returned exactly when prefix/suffix do not match
-    for d in pb.defs().get(0, []):
+    for d in pb.ret_defs():
         if d[0] == 'assign' and canon(pb.rvalue_expr(d[3])) == 'Option::None{}':
             preds = pb.pred[d[1]]
             conds = sorted(tuple(sorted(util.crel(x) for x in util.facts_to_rels(pb.facts_on_edge(p, d[1])))) for p in preds)
